@@ -503,4 +503,56 @@ example : let core := [CReq.v 0, .v 1, .v 2, .t 0 1 2]
     (tessellateImpl bbSink true core none (BB.new ⟨[7, 7], [1, 0, 1]⟩ IndexTy.u16.cfg)).st.buf =
       ⟨[7, 7, 0, 1, 2], [1, 0, 1, 2, 3, 4]⟩ := by decide
 
+/-! ## The fast paths' request sequences -/
+
+/-- `fill_circle`'s request sequence names only vertices it has requested before, for every
+recursion depth (so `ids_fresh_fill` / `buffers_end_extends` apply to it). -/
+theorem circle_script_scoped (n : Nat) : wellScoped 0 (circleScript n) = true := by
+  have h := (circleQuadrants_scoped n 4 4 (Nat.le_refl 4)).1
+  simp only [circleScript, List.cons_append, List.nil_append, wellScoped, Nat.zero_add, h]
+  decide
+
+/-- Rectangle and circle fast paths, fault-free or faulted: every triangle the builder sees uses
+ids returned since `begin_geometry`. -/
+theorem ids_fresh_shapes {σ : Type} (S : Sink σ) (s : σ) (n : Nat) :
+    idsFresh [] (shapeRun S rectScript s).trace = true ∧
+    idsFresh [] (shapeRun S (circleScript n) s).trace = true := by
+  have key : ∀ script, wellScoped 0 script = true → idsFresh [] (shapeRun S script s).trace = true := by
+    intro script hw
+    have h := runQ_fresh S script (S.begin s) [] hw
+    unfold shapeRun
+    dsimp only
+    revert h
+    generalize runQ S script (S.begin s) [] = x
+    intro h
+    cases hx : x.err with
+    | some e => simpa [hx, idsFresh] using h
+    | none =>
+      simp only [hx]
+      show idsFresh [] (x.calls ++ [.endG]) = true
+      rw [idsFresh_append_term _ rfl]; exact h
+  exact ⟨key _ rect_script_scoped, key _ (circle_script_scoped n)⟩
+
+/-! ## Non-vacuity of the hypotheses used above -/
+
+example : let b := BB.new ⟨[1, 2, 3], [0, 1, 2]⟩ IndexTy.u16.cfg
+    let ops := [Op.vertex 7, .tri 3 0 9, .vertex 8]
+    (∀ o ∈ ops, Op.isBody o = true) ∧ b.buf.vertices.length < idxMod ∧ b.buf.indices.length < idxMod ∧
+    (bbSink.exec ops b.begin).1.buf ≠ b.buf ∧ ((bbSink.exec ops b.begin).1.abort).buf = b.buf := by decide
+
+example :
+    let o := tessellateImpl (tieSink true 2 .invalidVertex) true [.v 0, .v 1, .t 0 0 0] none
+              (BB.new ⟨[1, 2, 3], [0, 1, 2]⟩ IndexTy.u16.cfg, 0)
+    o.result = some (.geometryBuilder .invalidVertex) ∧ o.st.1.buf = ⟨[1, 2, 3], [0, 1, 2]⟩ ∧
+    o.trace = [.begin, .vertex (.ok 3), .vertex (.error .invalidVertex), .abort] := by decide
+
+example :
+    let o := strokeRun (tieSink false 2 .tooManyVertices) [[.v 0], [.v 1, .v 2], [.v 3]] [.v 9, .t 0 1 1]
+              (BB.new ⟨[1, 2, 3], [0, 1, 2]⟩ IndexTy.u16.cfg, 0)
+    o.result = some (.geometryBuilder .tooManyVertices) ∧ o.st.1.buf = ⟨[1, 2, 3], [0, 1, 2]⟩ ∧ o.pulled = 2 ∧
+    o.trace = [.begin, .vertex (.ok 3), .vertex (.error .tooManyVertices), .vertex (.ok 4), .tri 3 4 4, .abort] := by
+  decide
+
+example : wellScoped 0 (circleScript 2) = true ∧ nVerts (circleScript 2) = 16 := by decide
+
 end Lyon.C04
